@@ -39,20 +39,21 @@ MODELLED = ('image.py _CombinedPixelTransform.__init__ (flag gate, discovery roo
             'get_total_pixel_matrix) transform reuse; get_volume_from_series; pixels.py selectors, apply_voi_window, apply_lut, '
             '_check_rescale_dtype, palette LUT parsing; content.py LUT (descriptor, lut_data, scaled, inverted, '
             'apply), VOILUTTransformation.apply; pm/content.py RealWorldValueMapping.apply')
-STRATA = ['mono', 'mono_mf', 'mono_vol', 'series', 'tpm', 'flags', 'palette', 'lut', 'lut_big', 'lut_err', 'voi_apply', 'rwvm_apply',
+STRATA = ['mono', 'mono_mf', 'mono_mf_nonuniform', 'mono_vol', 'series', 'tpm', 'flags', 'palette', 'lut', 'lut_big', 'lut_err', 'voi_apply', 'rwvm_apply',
           'window', 'malformed']
 NOT_EXECUTED = ['ICC colour management (no ICC profile in the synthetic images; out of the property)',
                 'segmented palette colour LUTs (the code raises RuntimeError: not implemented)',
                 'slice / row / column sub-ranges of get_volume and get_total_pixel_matrix (whole stacks and whole '
                 'matrices are driven; the spatial arguments belong to C03 / C08 / C11)',
-                'non-uniform per-frame functional groups (open finding E2, switch C06_NONUNIFORM=1)']
+                ]
 RULE = ('mono: single-frame images, random modality (rescale integer / dyadic / LUT 8,16 bit), VOI (1-3 windows with '
         'LINEAR / LINEAR_EXACT / SIGMOID, explanations; VOI LUTs), MONOCHROME1/2 + PresentationLUTShape, RWVM linear / '
         'LUT selected by index, label, unit; random tri-state flags, output range, dtype. mono_mf: the same with '
         'parameters shared or per-frame, get_frame(i) and get_frames (all / subset / reversed / repeated frames). '
         'mono_vol: get_volume of a multi-frame stack with shuffled slice positions. series: get_volume_from_series over '
         '2-3 single-frame images (optionally different rescale per slice). tpm: get_total_pixel_matrix of a tiled 8-bit '
-        'monochrome image, parameters in the shared group. flags: all 3^5 x 2 flag vectors on fixed '
+        'monochrome image, parameters in the shared group. mono_mf_nonuniform: per-frame groups that do NOT all carry the '
+        'same kinds of parameters (open finding D106), read through get_frame / get_frames / get_volume. flags: all 3^5 x 2 flag vectors on fixed '
         'datasets. palette: 8/16-bit tables, odd/even lengths, any first value. lut*: LUT objects incl. 65536 entries '
         'and padded 8-bit tables. malformed: each guard violated. non-trivial = at least 2 distinct output values or '
         'a rejection; distinct by case hash')
@@ -60,7 +61,7 @@ EXHAUSTIVE = {'quick': False, 'thorough': False}
 
 TRI = [True, False, None]
 FN = ['LINEAR', 'LINEAR_EXACT', 'SIGMOID']
-MONO_KINDS = ('mono', 'mono_mf', 'flags', 'malformed', 'mono_vol', 'series', 'tpm')
+MONO_KINDS = ('mono', 'mono_mf', 'flags', 'malformed', 'mono_vol', 'series', 'tpm', 'mono_mf_nonuniform')
 DTYPES = ['float64', 'float64', 'float64', 'float32', 'int16', 'uint16', 'int32', 'uint8', 'int64']
 
 
@@ -404,15 +405,27 @@ def _tpm_case(rng):
     return c
 
 
-# OPEN finding E2 (reported): get_frames / _get_pixels_by_frame reuse the first frame's transform when
-# nothing of that frame was found in its per-frame group, so a later frame's own per-frame parameters are
-# ignored.  The model mirrors the code; the oracle flags it.  Generators draw uniform per-frame groups
-# (what the standard demands) unless this switch is on; repro: corpus/C06/pending/e2_nonuniform_get_frames.json
-NONUNIFORM_PER_FRAME = os.environ.get('C06_NONUNIFORM', '') == '1'
+# OPEN finding D106: get_frames / _get_pixels_by_frame reuse the first frame's transform when nothing of
+# that frame was found in its per-frame group, so a later frame's own per-frame parameters are ignored.
+# The model mirrors the code (correspondence agrees); the oracle flags it; the signature below keeps such
+# cases from counting as NEW violations.  Single-frame access (get_frame) on the same data is judged as usual.
+def _level_kinds(lv):
+    return (lv['rwvm'] is not None, lv['slope'] is not None or lv['icpt'] is not None, lv['win'] is not None)
+
+
+def _nonuniform(c):
+    pf = c.get('perframe')
+    return bool(pf) and len({_level_kinds(lv) for lv in pf}) > 1
+
+
+def _sig_d106(c):
+    return (c.get('kind') in MONO_KINDS and c.get('api') in ('get_frames', 'get_volume', 'tpm')
+            and _nonuniform(c))
 
 
 def _make_nonuniform(rng, c):
-    """drop one kind of parameter from ONE per-frame group (the other frames keep theirs)"""
+    """drop one kind of parameter from ONE per-frame group (the other frames keep theirs); when no kind
+    is carried by every frame, give the last frame a window of its own"""
     pf = c['perframe']
     for key in rng.sample(['win', 'rwvm', 'rescale'], 3):
         keys = ('slope', 'icpt') if key == 'rescale' else (key,)
@@ -420,7 +433,24 @@ def _make_nonuniform(rng, c):
             lv = pf[rng.randrange(len(pf))]
             for k in keys:
                 lv[k] = None
-            return
+            break
+    if not _nonuniform(c):
+        for lv in pf:
+            lv['win'] = None
+        pf[-1]['win'] = dict(_windows(rng), expl=None)
+        if c['shared']['win'] is None and rng.random() < 0.5:
+            c['shared']['win'] = dict(_windows(rng), expl=None)
+
+
+def _nonuniform_case(rng):
+    c = _vol_case(rng)
+    _make_nonuniform(rng, c)
+    c['kind'] = 'mono_mf_nonuniform'
+    c['api'] = rng.choice(['get_frames', 'get_frames', 'get_volume', 'get_frame'])
+    if c['api'] == 'get_frames' and rng.random() < 0.4:
+        k = len(c['frames'])
+        c['fis'] = rng.choice([[k - 1], list(range(k - 1, -1, -1)), [k - 1, 0]])
+    return c
 
 
 FLAG_BASES = None
@@ -520,14 +550,11 @@ def gen_cases(rng, tier):
             # a subset / another order of the frames (the shared transform is built from the first one asked for)
             k = len(c['frames'])
             c['fis'] = rng.choice([[k - 1], list(range(k - 1, -1, -1)), [k - 1, 0], [1, 1], [0]])
-        if NONUNIFORM_PER_FRAME and rng.random() < 0.3:
-            _make_nonuniform(rng, c)
         cases.append(c)
     for _ in range(36 * n):
-        c = _vol_case(rng)
-        if NONUNIFORM_PER_FRAME and rng.random() < 0.3:
-            _make_nonuniform(rng, c)
-        cases.append(c)
+        cases.append(_vol_case(rng))
+    for _ in range(24 * n):
+        cases.append(_nonuniform_case(rng))
     for _ in range(30 * n):
         cases.append(_series_case(rng))
     for _ in range(24 * n):
@@ -1903,9 +1930,9 @@ def shrink(c):
             yield dict(c, xs=[c['xs'][i]])
 
 
-# every finding reported from this check (D53-D56, D73-D78) has been fixed in the code; there is no open
-# C06 finding, hence no signature
-FINDINGS = {}
+# findings D53-D56, D73-D78, D88, D102 reported from this check have been fixed in the code; D106 (reuse of the
+# first frame's transform over non-uniform per-frame groups) is OPEN: signature above
+FINDINGS = {'D106': _sig_d106}
 
 if __name__ == '__main__':
     sys.exit(common.main(sys.modules[__name__]))
